@@ -15,7 +15,7 @@ THEOREMS = [
     (NS + "C03_directions_disjoint", "full"),
 ]
 # secondary tie (DESIGN 4.2): kernels regenerated from the source on every run, proved equal to the model (Props/Equiv<Group>.lean)
-EQUIV = {"Header": ["Mpgs.Equiv.gen_header_to_bytes", "Mpgs.Equiv.gen_total_size"]}
+EQUIV = {"Header": ["Mpgs.Equiv.gen_header_to_bytes", "Mpgs.Equiv.gen_total_size", "Mpgs.Equiv.gen_to_bytes_seals", "Mpgs.Equiv.gen_from_bytes_opens"]}
 ASSUMPTIONS = [
     "non-decreasing clock is NOT needed for the theorem: the send-rate guard (t - last_send >= send_interval) is what spaces "
     "emissions; the hypothesis is 65535 * send_interval >= 1 s (default 1/60 s) and clock values >= 0",
